@@ -542,6 +542,71 @@ class DegenerateArcs(SubCheck):
         return None
 
 
+class ParsedUnion(SubCheck):
+    """the box of a parsed document / group is the union of the boxes of its RENDERED descendants: shapes hidden by their
+    own or an ancestor's display (any letter case, attribute / inline style / rule), in defs, or of zero size do not count"""
+    name = "parsed-union"
+    single_outcome_ok = True
+
+    def __init__(self, svg):
+        self.svg = svg
+        hides = ['display="none"', 'display="None"', 'display="NONE"', 'style="display:none"', 'style="display: None"', 'class="hid"',
+                 'width="0"', '']
+        self.p = Product(hides, ["leaf", "group", "defs"], [True, False], [True, False])
+
+    def size(self):
+        return len(self.p)
+
+    def case(self, i):
+        hide, where, with_stroke, reify = self.p[i]
+        return dict(hide=hide, where=where, with_stroke=with_stroke, reify=reify)
+
+    def run(self, case):
+        import io
+        out = Outcome()
+        svg = self.svg
+        hide, where = case["hide"], case["where"]
+        big = '<rect id="big" x="-50" y="-60" width="200" height="300" stroke="black" stroke-width="8" %s/>'
+        if where == "leaf":
+            hidden = big % hide
+            if hide == 'width="0"':
+                hidden = big.replace('width="200" ', 'width="0" ') % ""
+        elif where == "group":
+            hidden = "<g %s>%s</g>" % (hide.replace('width="0"', 'display="none"'), big % "")
+        else:
+            hidden = "<defs>%s</defs>" % (big % "")
+        doc = ('<svg xmlns="http://www.w3.org/2000/svg" width="100" height="100"><style>.hid{display:none}</style>'
+               '<g id="G"><rect id="a" x="10" y="20" width="30" height="5" stroke="red" stroke-width="2"/>%s'
+               '<circle id="c" cx="60" cy="50" r="4" stroke="blue" stroke-width="4"/></g></svg>' % hidden)
+        shown = hide == "" and where in ("leaf", "group")
+        sw = case["with_stroke"]
+        lo = lambda v, w: v - (w / 2.0 if sw else 0.0)
+        hi = lambda v, w: v + (w / 2.0 if sw else 0.0)
+        want = [lo(10, 2), lo(20, 2), hi(64, 4), hi(54, 4)]
+        if shown:
+            want = [lo(-50, 8), lo(-60, 8), hi(150, 8), hi(240, 8)]
+        try:
+            d = svg.SVG.parse(io.StringIO(doc), reify=case["reify"])
+            ids = [e.id for e in d.elements() if isinstance(e, svg.Shape)]
+            boxes = {"svg": d.bbox(with_stroke=sw), "group": [e for e in d.elements() if isinstance(e, svg.Group) and e.id == "G"][0].bbox(with_stroke=sw)}
+        except Exception as e:  # noqa
+            out.fail("parsing / boxing %r raised %s" % (doc, type(e).__name__), None, repr(e), kind="exception", **case)
+            return out
+        out.traces += 1
+        out.nontrivial.append(tuple(sorted((k, str(v)) for k, v in case.items())))
+        out.outcome = True
+        if ("big" in ids) != shown:
+            out.fail("shape 'big' %s rendered in %r" % ("is not" if shown else "is", doc), shown, "big" in ids, kind="rendered", **case)
+        for nm, b in boxes.items():
+            if b is None or any(abs(x - y) > 1e-9 for x, y in zip(b, want)):
+                out.fail("%s.bbox(with_stroke=%s) of %r is %r; the union of the rendered shapes is %r" % (nm, sw, doc, b, want), want,
+                         list(b) if b else None, kind="union", which=nm, **case)
+        return out
+
+    def unit_test(self, case):
+        return None
+
+
 def stale_check(svg, tier):
     from props import stale
     measures = {
@@ -595,7 +660,7 @@ def refused_check(svg):
 
 
 def build(tier, seed, svg):
-    return [Quads(svg, tier), Cubics(svg, tier), Arcs(svg, tier), DegenerateArcs(svg), Containers(svg, tier), Groups(svg, tier),
+    return [Quads(svg, tier), Cubics(svg, tier), Arcs(svg, tier), DegenerateArcs(svg), Containers(svg, tier), Groups(svg, tier), ParsedUnion(svg),
             stale_check(svg, tier), refused_check(svg)]
 
 
